@@ -85,3 +85,18 @@ fn vf_get_next_tracking_run() {
     }
     println!("VF-SUMMARY test=get_next_tracking_run checked={} nontrivial={} bad={}", checked, nontrivial, bad);
 }
+
+#[test]
+fn vf_default_retention() {
+    // C12 / C13: a configuration that does not say how many runs to retain retains the documented 10: the slot of the next run is then
+    // never the slot the pointer records (with a default of 0 or 1 every run would reuse - and first wipe - the recorded run's slot)
+    let (mut checked, mut bad) = (0u64, 0u64);
+    for text in [r#"{"targets":[]}"#, r#"{"targets":[],"out_dir":"o"}"#, r#"{"targets":[],"server":{"log":{},"lock":{}}}"#] {
+        checked += 1;
+        match serde_json::from_str::<core::Config>(text) {
+            Ok(c) => if c.max_retained_runs != 10 { bad += 1; println!("VF-FAIL configuration `{}` :: max_retained_runs reads as {}, the documented default is 10 (with fewer than 2 the next run wipes the recorded run's slot before it has anything to replace it) (C13) (C12)", text, c.max_retained_runs); },
+            Err(e) => { bad += 1; println!("VF-FAIL configuration `{}` :: rejected: {} (C13) (C12)", text, e); }
+        }
+    }
+    println!("VF-SUMMARY test=default_retention checked={} nontrivial={} bad={}", checked, checked, bad);
+}
